@@ -228,6 +228,50 @@ def d3_companion(ctx):
               f"only {sorted(sufs)} can be selected when the reader is opened through the metadata file", key="candidates")
 
 
+def d5_cached_size(ctx):
+    ctx.rule("D5", "the size that determines the exposed sample count is measured on the current file_bin (no stale cached size after an in-place (de)compression)")
+    repo = ctx.repo
+    fo = repo.fn("spikeglx.Reader.open")
+    du = DefUse(fo.node)
+    # methods (other than the constructor) that rebind file_bin and whether they refresh the cached size with it
+    rebinding, refreshing = [], []
+    for q, fi in sorted(repo.functions.items()):
+        if not q.startswith("spikeglx.Reader.") or q.endswith(".__init__"):
+            continue
+        st_bin = [n for n in walk_function(fi.node) if isinstance(n, ast.Assign) and any(loc_name(t) == "self.file_bin" for t in n.targets)]
+        st_nb = [n for n in walk_function(fi.node) if isinstance(n, ast.Assign) and any(loc_name(t) == "self.nbytes" for t in n.targets)]
+        if st_bin:
+            rebinding.append(fi)
+            if st_nb:
+                refreshing.append(fi)
+    stale_possible = [fi for fi in rebinding if fi not in refreshing]
+    uses = []
+    for st in walk_function(fo.node):
+        if isinstance(st, ast.Assign) and isinstance(st.targets[0], ast.Subscript) and const_value(st.targets[0].slice) == (True, "fileTimeSecs"):
+            v = expand_name(du, st.value, st)
+            deps = set()
+            work = [v]
+            seen = 0
+            while work and seen < 50:
+                e = work.pop()
+                seen += 1
+                for n in ast.walk(e):
+                    if isinstance(n, ast.Attribute) and loc_name(n) == "self.nbytes":
+                        deps.add("self.nbytes")
+                    if isinstance(n, ast.Name):
+                        w = expand_name(du, n, st)
+                        if w is not n:
+                            work.append(w)
+            uses.append((st, deps))
+    if not uses:
+        raise AnchorMissing("Reader.open: duration rewrite not found")
+    for st, deps in uses:
+        ok = not ("self.nbytes" in deps and stale_possible)
+        ctx.check(ok, fo, st, st, "the repaired duration is computed from a fresh measurement of the current file (or the cached size is refreshed wherever file_bin is rebound)",
+                  f"the repaired duration is derived from the cached self.nbytes, but {', '.join(f.qualname.split('.')[-1] for f in stale_possible)} rebind self.file_bin without refreshing it: "
+                  "a reader re-opened after an in-place (de)compression exposes a sample count computed from the other file's byte size", key="cached-size")
+
+
 # ------------------------------------------------------------------------------------------------ thorough
 OWNER_TABLE = {
     # (function, method, receiver root) -> reason
@@ -284,9 +328,10 @@ def d4_who_may_delete(ctx):
 
 
 def run(ctx):
-    d1_atomic(ctx)
-    d2_source_last(ctx)
-    d3_companion(ctx)
+    ctx.run(d1_atomic)
+    ctx.run(d2_source_last)
+    ctx.run(d3_companion)
+    ctx.run(d5_cached_size)
 
 
 def run_thorough(ctx):
